@@ -23,18 +23,21 @@ TNext ==
             /\ sent' = sent + 1 /\ wbuf' = wbuf \o Frame(sent + 1)
             /\ UNCHANGED <<wire, rbuf, delivered, rstate, ndisc, waiting>>
        [] e.a = "SockSend" ->
-            /\ wire' = wire \o SubSeq(wbuf, 1, e.k) /\ wbuf' = SubSeq(wbuf, e.k + 1, Len(wbuf))
+            LET k == IF e.k > Len(wbuf) THEN Len(wbuf) ELSE e.k IN
+            /\ wire' = wire \o SubSeq(wbuf, 1, k) /\ wbuf' = SubSeq(wbuf, k + 1, Len(wbuf))
             /\ UNCHANGED <<sent, rbuf, delivered, rstate, ndisc, waiting>>
-            /\ (e.k > Len(wbuf)) => PrintT(<<"DRIFT", tid, l, <<"SockSend">>, {"wbuf"}>>)
+            \* what the sender hands to its socket is exactly its frames, in order, every byte once (checked on the real bytes)
+            /\ (e.k > Len(wbuf) \/ ~e.wireok) => PrintT(<<"VIOL", tid, l, <<"SockSend">>, {"C13.WireIsFramesInOrder"}>>)
        [] e.a = "Recv" ->
-            LET b == rbuf \o SubSeq(wire, 1, e.k)
+            LET kk == IF e.k > Len(wire) THEN Len(wire) ELSE e.k     \* (more bytes than the frames have: reported at SockSend)
+                b == rbuf \o SubSeq(wire, 1, kk)
                 r == Parse(b, delivered, NF + 1)
                 expState == IF r.st = "W" THEN e.state ELSE r.st
                 expBuf == IF expState = "D" THEN 0 ELSE Len(r.buf)
                 d == (IF r.del # e.delivered THEN {"delivered"} ELSE {})
                      \cup (IF expState # e.state THEN {"state"} ELSE {})
                      \cup (IF expBuf # e.rbuf THEN {"rbuf"} ELSE {})
-            IN /\ wire' = SubSeq(wire, e.k + 1, Len(wire))
+            IN /\ wire' = SubSeq(wire, kk + 1, Len(wire))
                /\ delivered' = e.delivered /\ rstate' = e.state /\ ndisc' = e.ndisc
                /\ rbuf' = IF e.state = "D" THEN <<>> ELSE r.buf
                /\ waiting' = (r.st = "W" /\ e.state = "C")
